@@ -26,3 +26,41 @@ prop('C01', 'p32', 'exploration',
      'generated-input search: every op/form/kind pairing is constructed and compared with an independent model; no proof of absence',
      'trusted: interval-set model; independent portable/frozen encoders (anchored on the Java/C golden files)',
      COMMON_ASSUME)
+
+prop('C02', 'p32', 'exploration',
+     'rapid state machine (t.Repeat) over (bitmap, interval-set model): 15 mutation/maintenance rules incl. a constructive rule that drives a chosen chunk to exactly 0/1/4095/4096/4097/65535/65536 elements; '
+     'initial state empty or any generated bitmap in any storage form; contents compared after every step. Non-trivial = history contains a range op spanning >=2 chunks or a step that changed the kind signature of the chunks (hook); distinct = FNV-64 of initial state + op list',
+     T(4, 500, 16, 8000),
+     'model-based stateful property testing (rapid state machine) against an interval-set model',
+     'generated histories compared step by step with a model; bounded length (~30-60 steps), no proof of absence',
+     'trusted: interval-set model (self-tested); hook used only for classification',
+     COMMON_ASSUME)
+
+prop('C03', 'p32', 'exploration',
+     'rapid draws a bitmap (shape x kind per chunk x storage form) and query arguments biased to elements, element+-1, chunk edges, 0, 2^32-1, 2^32; every scalar query is compared with the interval-set model; '
+     'Equals against 6 derived sets in other representations; purity via ToBytes/Checksum before/after. Non-trivial = non-empty bitmap whose arguments hit >=3 of {element, gap in chunk, gap between chunks, below min, above max, chunk edge}; distinct = FNV-64 of (spec, form, args)',
+     T(4, 1500, 16, 25000),
+     'property-based testing of every scalar query against an interval-set model',
+     'generated-input search with an independent model as oracle', 'trusted: interval-set model', COMMON_ASSUME)
+
+prop('C04', 'p32', 'exploration',
+     'rapid draws a bitmap and a program for each protocol: HasNext/Next/PeekNext/AdvanceIfNeeded programs for Iterator and UnsetIterator (windows up to 3e5 wide, ending at 2^32, across gaps/full chunks), reverse prefix, NextMany/NextMany64 buffer-length sequences from {0,1,2,3,63..65,4095..4097,65535..65537,random}, Iterate/Values/Backward/Ranges/Unset with early stop. '
+     'Oracle = index into the model (Select/Rank). Non-trivial = (>=2 chunks or >=2 kinds) and (an AdvanceIfNeeded skipped >=1 element, or a NextMany buffer boundary fell strictly inside a chunk, or a chunk-spanning range was checked); distinct = FNV-64 of (spec, programs)',
+     T(4, 1500, 16, 25000),
+     'property-based testing of iterator protocols with generated call programs against a model',
+     'generated-input search with an independent model as oracle', 'trusted: interval-set model', COMMON_ASSUME)
+
+prop('C15', 'p32', 'exploration',
+     'rapid draws bitmaps (half of them built from groups of adjacent chunks that are full / full to one edge / full with one hole, at keys 0, 0xFFFF and elsewhere) and 16 targets per case; NextValue/PreviousValue/NextAbsentValue/PreviousAbsentValue compared with the model (-1 exactly when the model has none on that side). '
+     'Non-trivial = the target chunk exists or the answer lies in another chunk than the target; distinct = FNV-64 of (spec, form, targets)',
+     T(4, 3000, 16, 40000),
+     'property-based testing of neighbour queries against an interval-set model',
+     'generated-input search with an independent model as oracle', 'trusted: interval-set model', COMMON_ASSUME)
+
+prop('C16', 'p32', 'exploration',
+     'three rapid properties: AddOffset64/AddOffset with offsets from {multiples of 65536, small, min->0, max->2^32-1, extremes, any} vs model shift with clipping (+operand unchanged, result independent); static Flip vs model and vs in-place Flip on a clone; '
+     'dense conversions: ToDense/WriteDenseTo/DenseSize/ToBitSet/FromBitSet bit-for-bit, FromDense of generated word slices (lengths 0..4096 not multiples of 1024, palettes) with both copy modes where the caller words live in a PROT_READ guarded mapping and the result is then mutated. '
+     'Non-trivial = offset not a multiple of 65536 with adjacent chunks / flip range spanning chunks / dense slice with a partial last chunk; distinct = FNV-64 of the case',
+     T(4, 1000, 16, 15000),
+     'property-based testing against a model + read-only guarded memory for the no-copy path',
+     'generated-input search with an independent model as oracle; stray writes become faults', 'trusted: interval-set model; mprotect semantics', COMMON_ASSUME)
